@@ -69,6 +69,19 @@ def _enc(rnd, arr, whole=False):
     return arr.astype(np.int64 if k == "int64" else np.int32)
 
 
+def _benc(rnd, b):
+    """bounds handed to a constructor: the (dimensions, 1) column, or - as every elementary distribution accepts it - the plain list of numbers"""
+    if b is None:
+        return None
+    if _ENC_STREAM.random() < 0.3:
+        return [float(v) for v in b.ravel()]
+    return b.copy()
+
+
+# a stream of its own, so that the expressions drawn for a seed stay what they were before this choice existed
+_ENC_STREAM = __import__("random").Random(20260930)
+
+
 def _normalize_history(rnd, obj):
     """'after normalize()' holds after any history with at least one call: call it 1-3 times"""
     for _ in range(rnd.choice([1, 1, 2, 3])):
@@ -164,7 +177,7 @@ def _tree(rnd, d, depth, normalized=False, for_generate=False):
         cls = rnd.choice([D.AdditiveDistribution, D.BayesRule])
         # the list of terms may be assembled by the constructor alone or grow afterwards through add_distribution(), with evaluations in between
         j = rnd.choice([k, k, rnd.randint(1, k)])
-        obj = cls([p.obj for p in parts[:j]], lower_bounds=None if lb is None else lb.copy(), upper_bounds=None if ub is None else ub.copy())
+        obj = cls([p.obj for p in parts[:j]], lower_bounds=_benc(rnd, lb), upper_bounds=_benc(rnd, ub))
         for p in parts[j:]:
             if rnd.random() < 0.5:
                 try:
@@ -181,7 +194,7 @@ def _tree(rnd, d, depth, normalized=False, for_generate=False):
         dims = [b - a for a, b in zip([0] + cuts, cuts + [d])]
         parts = [tree(rnd, di, depth - 1, for_generate=for_generate) for di in dims]
         lb, ub = (None, None) if for_generate else rand_bounds(rnd, d, 0.25)
-        obj = D.CompositeDistribution([p.obj for p in parts], lower_bounds=None if lb is None else lb.copy(), upper_bounds=None if ub is None else ub.copy())
+        obj = D.CompositeDistribution([p.obj for p in parts], lower_bounds=_benc(rnd, lb), upper_bounds=_benc(rnd, ub))
         return Node(obj, f"composite {k} " + " ".join(p.proto for p in parts) + " " + box_str(lb, ub), {"kind": w, "dims": dims, "parts": [p.desc for p in parts]},
                     d, w, parts, has_kinks=any(p.has_kinks for p in parts), positive_only=any(p.positive_only for p in parts), generable=all(p.generable for p in parts), lb=lb, ub=ub)
     if w == "mixture":
@@ -223,6 +236,66 @@ def intact_problems(node, path="root"):
     for i, c in enumerate(node.children):
         out += intact_problems(c, f"{path}.{i}")
     return out
+
+
+def effective_bounds(node):
+    """The bounds in force for every coordinate of the expression, from the values recorded at construction (never from the objects): a leaf has its own box;
+    an additive node the intersection of its own box with what is in force in every part; a composite keeps bounds in its blocks, at any depth - stacked,
+    infinite where a block has none, intersected with its own box. A side without any finite entry is None."""
+    def col(v, fill):
+        return np.full((node.d, 1), fill) if v is None else np.asarray(v, dtype=float).reshape(-1, 1)
+
+    if node.kind == "additive":
+        lo, hi = col(node.lb, -np.inf), col(node.ub, np.inf)
+        for c in node.children:
+            cl, ch = effective_bounds(c)
+            if cl is not None:
+                lo = np.maximum(lo, cl)
+            if ch is not None:
+                hi = np.minimum(hi, ch)
+    elif node.kind == "composite":
+        ls, hs = [], []
+        for c in node.children:
+            cl, ch = effective_bounds(c)
+            ls.append(np.full((c.d, 1), -np.inf) if cl is None else cl)
+            hs.append(np.full((c.d, 1), np.inf) if ch is None else ch)
+        lo, hi = np.maximum(np.vstack(ls), col(node.lb, -np.inf)), np.minimum(np.vstack(hs), col(node.ub, np.inf))
+    else:
+        lo, hi = col(node.lb, -np.inf), col(node.ub, np.inf)
+    return (lo if np.any(lo > -np.inf) else None), (hi if np.any(hi < np.inf) else None)
+
+
+def reflect_box(lo, hi, q, p):
+    """one lower-wall and then one upper-wall mirror reflection per coordinate, momentum components negated with them (in place)"""
+    if lo is not None:
+        m = q < lo
+        q[m] += 2 * (np.broadcast_to(lo, q.shape)[m] - q[m])
+        p[m] *= -1.0
+    if hi is not None:
+        m = q > hi
+        q[m] += 2 * (np.broadcast_to(hi, q.shape)[m] - q[m])
+        p[m] *= -1.0
+
+
+def expected_reflect(node, q, p):
+    """What corrector() is documented to do, from the construction values alone: an additive distribution mirrors at the bounds in force (its own,
+    intersected with those of its parts); a composite mirrors at its own bounds if it has any, else every block corrects its own coordinates; a leaf
+    mirrors at its own bounds. In place on the (d, 1) arrays q and p."""
+    def col(v):
+        return None if v is None else np.asarray(v, dtype=float).reshape(-1, 1)
+
+    if node.kind == "additive":
+        reflect_box(*effective_bounds(node), q, p)
+    elif node.kind == "composite":
+        if node.lb is not None or node.ub is not None:
+            reflect_box(col(node.lb), col(node.ub), q, p)
+        else:
+            k = 0
+            for c in node.children:
+                expected_reflect(c, q[k:k + c.d], p[k:k + c.d])
+                k += c.d
+    else:
+        reflect_box(col(node.lb), col(node.ub), q, p)
 
 
 HISTORY_P = 0.3
